@@ -476,7 +476,7 @@ def apply (s : State) : Ev → State
   | .launch o =>
       { s.updMeta o (fun m => put .queuedLocally (put .jobinfo m)) with
         launches := (o, s.inc) :: s.launches, alive := o :: s.alive.filter (· != o) }
-  | .joblog o => s.updMeta o (fun m => toDisk .log (unq m))
+  | .joblog o => s.updMeta o (toDisk .log)   -- `_queued_locally` is removed separately (`U`)
   | .jobend o x => { s.updMeta o (toDisk x) with alive := s.alive.filter (· != o) }
   | .silentfail o => { s.updMeta o (put .errors) with alive := s.alive.filter (· != o) }
   | .refresh => { s with phase := .normal }
